@@ -49,7 +49,7 @@ func (Engine) Describe(prop string) core.Description {
 			"only page[number] and page[size] are generated as page parameters; an empty field list and an absent entry are the same selection",
 			"the fixed-point clause is monitored on sampled URLs; the seam-dependent clause (parameter / list order, map order) is what simulation decides",
 		},
-		Probes: []string{"parse-ok", "parse-error", "reserved-char-in-id", "reserved-char-in-filter-label", "reserved-char-in-page-value", "reserved-char-in-filter-string", "filter-tree", "filter-members-in-another-order", "type-without-fields", "variant-params-permuted", "variant-empty-items", "relationship-url", "collection-url", "include-param", "extra-page-parameter", "schema-built-through-edit-history", "names-that-need-escaping"},
+		Probes: []string{"parse-ok", "parse-error", "reserved-char-in-id", "reserved-char-in-filter-label", "reserved-char-in-page-value", "reserved-char-in-filter-string", "filter-tree", "filter-members-in-another-order", "type-without-fields", "variant-params-permuted", "variant-empty-items", "relationship-url", "collection-url", "include-param", "extra-page-parameter", "schema-built-through-edit-history", "names-that-need-escaping", "schema-edited-between-parses"},
 	}
 }
 
@@ -127,9 +127,10 @@ func (p param) raw(rng *core.Rng, emptyItems bool) string {
 }
 
 type urlSpec struct {
-	path   string // escaped
-	params []param
-	flags  map[string]bool
+	resType string // name of the type the URL's sorting rules and filter are about
+	path    string // escaped
+	params  []param
+	flags   map[string]bool
 }
 
 func (u *urlSpec) raw(rng *core.Rng, emptyItems bool) string {
@@ -315,6 +316,8 @@ func drawURL(t *core.Tape, s *world.SchemaSpec) *urlSpec {
 	if isCol {
 		u.flags["collection-url"] = true
 	}
+
+	u.resType = resType.Name
 
 	// fields
 	for _, ft := range s.Types {
@@ -709,22 +712,87 @@ func run(t *core.Tape, st *core.Stats) *core.Violation {
 	}
 
 	// 2. fixed point (monitored, sampled strength)
-	v := fixedPoint(t, st, parse, show, raw0, base.str, base.snap, class, true)
-	if v == nil {
+	law := func(base *parsed) *core.Violation {
+		v := fixedPoint(t, st, parse, show, raw0, base.str, base.snap, class, true)
+		if v == nil {
+			return nil
+		}
+
+		// Diagnose one specific defect: a type whose field list is empty is printed as
+		// the truncated parameter "fields%5B<type>%", which the parser then drops. If
+		// the law holds once those truncated parameters are removed from the text,
+		// that defect is the only deviation and becomes the violation's input class.
+		if cleaned := dropTruncatedFields(base.str); cleaned != base.str {
+			if fixedPoint(t, st, parse, show, raw0, cleaned, base.snap, class, false) == nil {
+				v.Input = "type-without-fields-printed-as-truncated-parameter"
+			}
+		}
+
+		return v
+	}
+
+	if v := law(base); v != nil {
+		return v
+	}
+
+	// 3. The schema is edited (an attribute is added to the resource type, or one is
+	// removed) and the same raw URL is parsed again: "parses against the same schema"
+	// is then about the schema as it is now; what the library remembers from the
+	// earlier parses must not show.
+	if us.resType == "" || !t.Bool(1, 5) {
 		return nil
 	}
 
-	// Diagnose one specific defect: a type whose field list is empty is printed as
-	// the truncated parameter "fields%5B<type>%", which the parser then drops. If
-	// the law holds once those truncated parameters are removed from the text,
-	// that defect is the only deviation and becomes the violation's input class.
-	if cleaned := dropTruncatedFields(base.str); cleaned != base.str {
-		if fixedPoint(t, st, parse, show, raw0, cleaned, base.snap, class, false) == nil {
-			v.Input = "type-without-fields-printed-as-truncated-parameter"
+	var (
+		edit string
+		aerr error
+	)
+
+	if p := core.Call(func() {
+		typ := schema.GetType(us.resType)
+
+		if len(typ.Attrs) > 0 && t.Bool(1, 3) {
+			names := make([]string, 0, len(typ.Attrs))
+			for n := range typ.Attrs {
+				names = append(names, n)
+			}
+
+			sort.Strings(names)
+
+			gone := names[t.Draw(len(names))]
+			schema.RemoveAttr(us.resType, gone)
+			edit = fmt.Sprintf("RemoveAttr(%q, %q)", us.resType, gone)
+
+			return
 		}
+
+		a := jsonapi.Attr{Name: []string{"added-later", "0first", "zz"}[t.Draw(3)], Type: t.Range(1, 14), Nullable: t.Bool(1, 2)}
+		aerr = schema.AddAttr(us.resType, a)
+		edit = fmt.Sprintf("AddAttr(%q, %q)", us.resType, a.Name)
+	}); p != nil || aerr != nil {
+		return nil // schema editing is C14's business
 	}
 
-	return v
+	t.Logf("schema edited: %s", edit)
+	st.Inc("probe:schema-edited-between-parses")
+
+	base2, ok := parse(raw0)
+	if !ok || base2.err != nil {
+		return nil // e.g. the URL names the removed attribute
+	}
+
+	if v := show(base2, "URL parsed after the schema edit"); v != nil {
+		return v
+	}
+
+	t.Logf("parse %q (after %s) -> String() = %q", raw0, edit, base2.str)
+
+	if v := law(base2); v != nil {
+		v.Input += ":after-schema-edit"
+		return v
+	}
+
+	return nil
 }
 
 func dropTruncatedFields(s string) string {
